@@ -76,6 +76,48 @@ def cmpFile (model : List Nat) (path : String) : IO String := do
 
 abbrev Maps := List (String × KeyType × Store)
 
+/-- which branches of the model the correspondence run exercised -/
+initialize covRef : IO.Ref (List (String × Nat)) ← IO.mkRef []
+
+def bump (k : String) : IO Unit :=
+  covRef.modify fun l =>
+    if l.any (·.1 == k) then l.map (fun p => if p.1 == k then (p.1, p.2 + 1) else p) else (k, 1) :: l
+
+def valOffOf (s : Store) (off : Nat) : Nat :=
+  match s.kf.get off with | some (.used _ r) => r.valOff | _ => 0
+
+/-- classify a `put` by what it did to the records -/
+def classifyPut (kt : KeyType) (s s' : Store) (k v : List Nat) : IO Unit := do
+  match s.find kt k, s'.find kt k with
+  | some none, _ =>
+    bump "put-new"
+    if s'.vf.end_ > s.vf.end_ then bump "val-extend" else bump "val-reuse-free-slot"
+    if s'.kf.end_ > s.kf.end_ then bump "key-extend" else bump "key-reuse-free-slot"
+    if Gen.isLargePieceSize valCfg.sizeAry (valueNeed v.length) && s'.vf.end_ == s.vf.end_ then bump "large-list-first-fit-hit"
+  | some (some (off, _)), some (some (off', _)) =>
+    bump "put-overwrite"
+    if valOffOf s off == valOffOf s' off' then bump "val-in-place" else bump "val-moved"
+    if off == off' then pure () else
+      bump "key-record-moved"
+      if s'.kf.slots.length > s.kf.slots.length + 1 || (s'.kf.end_ > s.kf.end_ + 1024) then bump "relink-cascade(>1 append)"
+    if s'.headOf (bucketOf k s.n) != s.headOf (bucketOf k s.n) then bump "bucket-head-relinked"
+  | _, _ => pure ()
+
+def classifyDel (kt : KeyType) (s s' : Store) (k : List Nat) : IO Unit := do
+  match s.find kt k with
+  | some none => bump "del-absent"
+  | some (some (_, prev)) =>
+    if prev == 0 then bump "del-chain-head" else
+      bump "del-chain-inner"
+      match s.kf.get prev with
+      | some (.used _ pr) =>
+        match s'.find kt pr.key with
+        | some (some (p', _)) => if p' != prev then bump "del-predecessor-moved" else pure ()
+        | _ => pure ()
+      | _ => pure ()
+  | _ => pure ()
+  if s'.count == 0 && s.count > 0 then bump "map-emptied" else pure ()
+
 def findMap (ms : Maps) (name : String) : Option (KeyType × Store) :=
   (ms.find? (·.1 == name)).map (·.2)
 def setMap (ms : Maps) (name : String) (kt : KeyType) (s : Store) : Maps :=
@@ -180,6 +222,9 @@ def genLine (args : List String) : String :=
 def handle (ms : Maps) (line : String) : IO (Maps × String) := do
   match line.trimAscii.toString.splitOn " " with
   | "gen" :: args => return (ms, genLine args)
+  | ["cov"] => do
+    let l ← covRef.get
+    return (ms, ",".intercalate (l.map fun p => s!"{p.1}={p.2}"))
   | name :: "open" :: kt :: n :: _ =>
     match parseKt kt, n.toNat? with
     | some kt, some n => return (setMap ms name kt (Store.init n), "ok")
@@ -193,7 +238,9 @@ def handle (ms : Maps) (line : String) : IO (Maps × String) := do
         match parseBytes k, parseBytes v with
         | some k, some v =>
           match s.put kt k v with
-          | some s' => return (setMap ms name kt s', "ok")
+          | some s' => do
+            classifyPut kt s s' k v
+            return (setMap ms name kt s', "ok")
           | none => return (ms, "FAIL")
         | _, _ => return (ms, "bad-op")
       | "get", [k] =>
@@ -205,7 +252,9 @@ def handle (ms : Maps) (line : String) : IO (Maps × String) := do
       | "del", [k] =>
         match parseBytes k with
         | some k => match s.del kt k with
-          | some (s', r) => return (setMap ms name kt s', reprOpt r)
+          | some (s', r) => do
+            classifyDel kt s s' k
+            return (setMap ms name kt s', reprOpt r)
           | none => return (ms, "FAIL")
         | none => return (ms, "bad-op")
       | "inc", [k] =>
